@@ -7,9 +7,9 @@ WT=/tmp/wt_verify
 [ -d $WT ] || git -C /repo worktree add --detach $WT HEAD >/dev/null 2>&1
 cd $WT && git checkout -q --detach $(git -C /repo rev-parse HEAD) && git checkout -- . && git clean -fdq
 export CARGO_NET_OFFLINE=true
-DEST=$(python3 -c "import json,re;print(re.sub(r'^/tmp/wt[23]?_C[0-9]+/','',json.load(open('$DIR/meta.json'))['demo_dest']))")
+DEST=$(python3 -c "import json,re;print(re.sub(r'^/tmp/wt[0-9]?_C[0-9]+/','',json.load(open('$DIR/meta.json'))['demo_dest']))")
 DEMO=$(python3 -c "import json;print(json.load(open('$DIR/meta.json'))['demo_file'])")
-CMD=$(python3 -c "import json,re;print(re.sub(r'/tmp/wt[23]?_C[0-9]+','$WT',json.load(open('$DIR/meta.json'))['demo_cmd']))")
+CMD=$(python3 -c "import json,re;print(re.sub(r'/tmp/wt[0-9]?_C[0-9]+','$WT',json.load(open('$DIR/meta.json'))['demo_cmd']))")
 git apply "$DIR/patch.diff" || { echo "VERIFY-FAIL patch does not apply"; exit 1; }
 cargo test --workspace --no-fail-fast --offline >/tmp/seedverify.log 2>&1; RC1=$?
 mkdir -p "$(dirname "$DEST")"; cp "$DIR/$DEMO" "$DEST"
